@@ -1,6 +1,6 @@
 import Zc.Proofs.DecodeLib
 import Zc.Proofs.DecodeRefute
-import Zc.Proofs.DecodeAgree
+import Zc.Proofs.DecodeAgreeMsg
 /-! # C02 — the decoder is total, bounded and faithful on arbitrary datagrams
 
 `parse b` is the model of `DNSIncoming(b)` followed by `.answers()` (`Zc.Wire.DecodeLib`), a total
@@ -79,30 +79,43 @@ theorem C02_names_short_each (b : Bytes) (p : Parsed) (h : (parse b).parsed? = s
   have := C02_names_short b p h
   simpa [namesShort, List.all_eq_true] using this
 
-/-- **Faithfulness, full statement**: whenever the strict RFC 1035 parser accepts the datagram, it
-uses only supported record types and every label can be written back as a label (`reencodable`, the
-reading of "strict" under the D8 repair, cf. RFC 6762 §16), the object is valid and carries exactly
-the strict parser's header, questions and records. -/
-def C02_agrees_strict_statement : Prop :=
-  ∀ (b : Bytes) (m : WMsg), Strict.decode b = some m → Strict.supportedOnly m = true → reencodable m = true →
+/-- **Faithfulness.** Whenever the strict RFC 1035 parser (`Wire.Strict`: exact counts, backward
+pointers, ≤ 128 hops, names ≤ 253 characters, exact rdlength, no trailing bytes) accepts the datagram,
+the message uses only supported record types, and every label can be written back as a label
+(`reencodable`: its decoded text re-encodes to ≤ 63 bytes — always true of valid UTF-8 labels; this
+is the reading of "strict" under the D8 repair, cf. RFC 6762 §16), the constructor returns a *valid*
+object that carries exactly the strict parser's header fields, questions and records (the three
+sections in order, NSEC type lists sorted as `DNSNsec` keeps them).  Proved for the whole object:
+fixed-size fields, all seven rdata layouts, the section loops, and the name decoder with its
+`seen_pointers` test, hop bound, label-count test and cache (hits and empty-entry recomputation). -/
+theorem C02_agrees_strict (b : Bytes) (m : WMsg) (h : Strict.decode b = some m)
+    (hs : Strict.supportedOnly m = true) (hr : reencodable m = true) :
+    ∃ p, (parse b).out = .ok p ∧ agrees p m = true :=
+  parse_agrees libCfg_ok libCfg_agree b m h hs hr
+
+/-- the literal sentence of the property, without the `reencodable` proviso.  It holds of the tree
+without the D8 repair and is deliberately given up by that repair (a strict-accepted question whose
+label is 40 × `0xFF` is rejected: `corpus/C02/d8-label-40xff.json`); see notes/agents/C02.md. -/
+def C02_agrees_strict_literal : Prop :=
+  ∀ (b : Bytes) (m : WMsg), Strict.decode b = some m → Strict.supportedOnly m = true →
     ∃ p, (parse b).out = .ok p ∧ agrees p m = true
 
-/-- **Faithful names** — the core of `C02_agrees_strict_statement`, proved for every single name and
-every state of the name cache that can arise: wherever the strict decoder reads a name (backward
-pointers, ≤ 128 hops, ≤ 253 characters), `_read_name` returns the same labels and stops at the same
-offset — the `seen_pointers` test, the hop bound, the label-count test, the re-encoding test and
-cache hits (including the recomputation of empty entries) never interfere — and the cache stays
-correct.  `_partial`: the lifting to whole messages (fixed-size fields, the seven rdata layouts and
-the section loops, which contain no pointer logic) is not proved here (see the stronger theorems
-below for the part that is); it is checked differentially on every run. -/
-theorem C02_name_agrees_strict_partial (b : Bytes) (st : St) (n : WName) (e : Nat)
+/-- the hypotheses are satisfiable by a message with content: a PTR question `a.` and a PTR answer
+owned by a pointer to it, whose rdata `b.a.` is compressed as well -/
+example : (Strict.decode [0,0, 0x84,0, 0,1, 0,1, 0,0, 0,0,  1,97,0, 0,12, 0,1,
+                          0xC0,12, 0,12, 0,1, 0,0,0,120, 0,4, 1,98,0xC0,12]).map
+      (fun m => Strict.supportedOnly m && reencodable m && decide (m.answers.length = 1) && decide (m.questions.length = 1))
+    = some true := by
+  decide +kernel
+
+/-- the name-level core of the agreement, for every state of the name cache that can arise -/
+theorem C02_name_agrees_strict (b : Bytes) (st : St) (n : WName) (e : Nat)
     (h : Strict.decName b st.off = some (n, e)) (hl : ∀ l ∈ n, Utf8.reencodedLen l ≤ 63)
     (hc : CacheOK b st.cache) :
     ∃ st', readName libCfg b st = (st', .ok n) ∧ st'.off = e ∧ CacheOK b st'.cache :=
   readName_agrees libCfg_ok libCfg_agree b st n e h hl hc
 
-/-- the hypotheses are satisfiable: a compressed name (`a.b` at 12, then `c` + pointer to 14)
-is decoded by both to `c.b`, through the pointer -/
+/-- a compressed name (`a.b` at 12, then `c` + pointer to 14) is decoded by both to `c.b` -/
 example : Strict.decName [0,0,0,0,0,0,0,0,0,0,0,0, 1,97,1,98,0, 1,99,0xC0,14] 17 = some ([[99],[98]], 21)
     ∧ (match (readName libCfg [0,0,0,0,0,0,0,0,0,0,0,0, 1,97,1,98,0, 1,99,0xC0,14] { off := 17 }).2 with
        | .ok n => decide (n = [[99],[98]])
